@@ -7,21 +7,28 @@ import (
 	"time"
 
 	"github.com/siyul-park/uniflow/pkg/packet"
+	"github.com/siyul-park/uniflow/pkg/process"
 	"github.com/siyul-park/uniflow/pkg/types"
 )
 
-// op is one step of a deterministic schedule: a source write or the answer to the oldest
-// unanswered request at a sink, in one of the sessions (processes).
+// op is one step of a deterministic schedule, in one of the sessions (processes):
+//
+//	w  a source write
+//	a  the answer to the oldest unanswered request at a sink
+//	r  the action held in a gated node returns
 type op struct {
-	kind byte // 'w' | 'a'
+	kind byte // 'w' | 'a' | 'r'
 	sess int
-	node int // source or sink index
+	node int // source, sink or gated node index
 	v    int
 }
 
 func (o op) String() string {
-	if o.kind == 'w' {
+	switch o.kind {
+	case 'w':
 		return fmt.Sprintf("w%d.%d=%d", o.sess, o.node, o.v)
+	case 'r':
+		return fmt.Sprintf("r%d.%d", o.sess, o.node)
 	}
 	return fmt.Sprintf("a%d.%d", o.sess, o.node)
 }
@@ -32,19 +39,12 @@ type pendingReq struct {
 	pck   *packet.Packet
 }
 
-type writeRec struct {
-	src         int
-	outstanding int
-	answered    bool
-}
-
 // sessRun is the harness-side bookkeeping of one session.
 type sessRun struct {
 	s       *session
 	ip      *interp
 	pending map[int][]pendingReq // per sink, oldest first
-	writes  []writeRec
-	queue   map[int][]int // per source: writes whose response has not been collected
+	queue   map[int][]int        // per source: writes whose response has not been collected
 }
 
 type runner struct {
@@ -60,6 +60,15 @@ func newRunner(f *flow, nsess int) *runner {
 		r.ss = append(r.ss, &sessRun{s: openSession(f), ip: newInterp(f.spec), pending: map[int][]pendingReq{}, queue: map[int][]int{}})
 	}
 	return r
+}
+
+func (r *runner) owns(p *process.Process) bool {
+	for _, sr := range r.ss {
+		if sr.s.proc == p {
+			return true
+		}
+	}
+	return false
 }
 
 func (r *runner) failf(format string, a ...any) {
@@ -78,7 +87,7 @@ func (r *runner) collect(sr *sessRun, obs *[]string) {
 	for _, src := range srcs {
 		for len(sr.queue[src]) > 0 {
 			w := sr.queue[src][0]
-			if sr.writes[w].outstanding > 0 {
+			if !sr.ip.writes[w].done() {
 				break
 			}
 			select {
@@ -93,48 +102,87 @@ func (r *runner) collect(sr *sessRun, obs *[]string) {
 				r.failf("source %d: no response to write %d within %v", src, w, watchdog)
 				*obs = append(*obs, fmt.Sprintf("resp(%d,#%d)=timeout", src, w))
 			}
-			sr.writes[w].answered = true
 			sr.queue[src] = sr.queue[src][1:]
 		}
 	}
 }
 
+// await waits for the events the reference reading says the step causes: actions entered in
+// gated nodes and packets arriving at sinks (any order), and files the arrivals as pending.
+func (r *runner) await(o op, sr *sessRun, obs *[]string) {
+	wantE := map[string]int{}
+	for _, e := range sr.ip.entered {
+		wantE[fmt.Sprintf("%d:%d", e.node, e.value)]++
+	}
+	wantA := map[string][]arrival{}
+	for _, a := range sr.ip.arrivals {
+		k := fmt.Sprintf("%d:%d", a.sink, a.value)
+		wantA[k] = append(wantA[k], a)
+	}
+	var gotE, gotA []string
+	total := len(sr.ip.entered) + len(sr.ip.arrivals)
+	deadline := time.After(watchdog)
+	for i := 0; i < total; i++ {
+		select {
+		case ev := <-sr.s.events:
+			key := fmt.Sprintf("%d:%s", ev.sink, canon(ev.pck))
+			gotA = append(gotA, key)
+			if as := wantA[key]; len(as) > 0 {
+				a := as[0]
+				wantA[key] = as[1:]
+				sr.pending[a.sink] = append(sr.pending[a.sink], pendingReq{write: a.write, value: a.value, pck: ev.pck})
+			} else {
+				r.failf("step %v: unexpected arrival %s at a sink (expected %v)", o, key, sr.ip.arrivals)
+			}
+		case ev := <-r.f.gates.entered:
+			if !r.owns(ev.proc) {
+				// an action of a process that is not one of the sessions (a victim of the open-exit
+				// cases whose write was still accepted): not ours to account for
+				i--
+				continue
+			}
+			key := fmt.Sprintf("%d:%d", ev.node, ev.value)
+			gotE = append(gotE, key)
+			if ev.proc != sr.s.proc || wantE[key] == 0 {
+				r.failf("step %v: unexpected action entered %s (expected %v)", o, key, sr.ip.entered)
+			} else {
+				wantE[key]--
+			}
+		case <-deadline:
+			r.failf("step %v: expected actions %v and arrivals %v, saw actions %v arrivals %v", o, sr.ip.entered, sr.ip.arrivals, gotE, gotA)
+			gotA = append(gotA, "timeout")
+			i = total
+		}
+	}
+	sort.Strings(gotA)
+	sort.Strings(gotE)
+	if len(gotE) > 0 {
+		*obs = append(*obs, "act=["+strings.Join(gotE, ",")+"]")
+	}
+	*obs = append(*obs, "arr=["+strings.Join(gotA, ",")+"]")
+}
+
 func (r *runner) exec(o op) {
 	sr := r.ss[o.sess]
 	var obs []string
+	sr.ip.clear()
 	switch o.kind {
 	case 'w':
-		var arr []arrival
-		w := len(sr.writes)
-		sr.ip.deliver(o.node, "", o.v, w, &arr)
+		w := sr.ip.write(o.node, o.v)
 		n := sr.s.writers[o.node].Write(packet.New(types.NewInt(o.v)))
 		obs = append(obs, fmt.Sprintf("n=%d", n))
-		sr.writes = append(sr.writes, writeRec{src: o.node, outstanding: len(arr)})
 		sr.queue[o.node] = append(sr.queue[o.node], w)
-		want := map[string]int{}
-		for i, a := range arr {
-			want[fmt.Sprintf("%d:%d", a.sink, a.value)] = i + 1
+		r.await(o, sr, &obs)
+	case 'r':
+		st := sr.ip.nodes[o.node]
+		if st == nil || !st.busy || !r.f.spec.nodes[o.node].gated {
+			return
 		}
-		var got []string
-		for range arr {
-			select {
-			case ev := <-sr.s.events:
-				key := fmt.Sprintf("%d:%s", ev.sink, canon(ev.pck))
-				got = append(got, key)
-				if idx := want[key]; idx > 0 {
-					delete(want, key)
-					a := arr[idx-1]
-					sr.pending[a.sink] = append(sr.pending[a.sink], pendingReq{write: a.write, value: a.value, pck: ev.pck})
-				} else {
-					r.failf("write %v: unexpected arrival %s at a sink (expected %v)", o, key, arr)
-				}
-			case <-time.After(watchdog):
-				r.failf("write %v: expected %d arrivals at the sinks, saw %v", o, len(arr), got)
-				got = append(got, "timeout")
-			}
+		sr.ip.finish(o.node)
+		if !r.f.gates.release(o.node, sr.s.proc) {
+			r.failf("step %v: no action was waiting in node %d", o, o.node)
 		}
-		sort.Strings(got)
-		obs = append(obs, "arr=["+strings.Join(got, ",")+"]")
+		r.await(o, sr, &obs)
 	case 'a':
 		q := sr.pending[o.node]
 		if len(q) == 0 {
@@ -144,18 +192,26 @@ func (r *runner) exec(o op) {
 		sr.pending[o.node] = q[1:]
 		ok := sr.s.readers[o.node].Receive(packet.New(types.NewInt(req.value + 1000)))
 		obs = append(obs, fmt.Sprintf("recv=%v", ok))
-		sr.writes[req.write].outstanding--
+		sr.ip.writes[req.write].outstanding--
 	}
 	r.collect(sr, &obs)
 	r.log = append(r.log, o.String()+" "+strings.Join(obs, " "))
 }
 
-// drain answers everything still pending (sink order, oldest first) and collects the responses.
-func (r *runner) drain() {
+// drain releases every held action and answers everything still pending (node / sink order,
+// oldest first) until nothing is left, collecting the responses.
+func (r *runner) drain(skip ...int) {
 	for si, sr := range r.ss {
+		if len(skip) > 0 && skip[0] == si {
+			continue
+		}
 		sinks := r.f.spec.indices("sink")
 		for again := true; again; {
 			again = false
+			for _, n := range sr.ip.blocked() {
+				r.exec(op{kind: 'r', sess: si, node: n})
+				again = true
+			}
 			for _, k := range sinks {
 				if len(sr.pending[k]) > 0 {
 					r.exec(op{kind: 'a', sess: si, node: k})
